@@ -103,11 +103,17 @@ def status_table(http_mir):
 
 
 # ---------------------------------------------------------------- executor extensions
-def canon_state(s):
+def canon_state(s, state_locals=None):
     """fields of a coroutine's saved state, `(((*_40) as variant#5).0: T)` and `((*_40).2: T)`, become
     pseudo-locals `_40v5f0` / `_40f2` (the state object is only ever reached through that one pointer)"""
     while True:
-        m = re.search(r"\(\(\(\*(_\d+)\) as variant#(\d+)\)\.(\d+): ", s) or re.search(r"\(\(\*(_\d+)\)\.(\d+): ", s)
+        m = re.search(r"\(\(\(\*(_\d+)\) as variant#(\d+)\)\.(\d+): ", s)
+        if not m:
+            # direct fields only of the coroutine's own state pointer (other `(*_n).f` places are ordinary)
+            for m2 in re.finditer(r"\(\(\*(_\d+)\)\.(\d+): ", s):
+                if state_locals is None or m2.group(1) in state_locals:
+                    m = m2
+                    break
         if not m:
             return s
         depth, i = 0, m.start()
@@ -141,6 +147,8 @@ class Exec15(Executor):
         super().__init__(fn, contracts, None)
         self.table = table
         self.stop_re = stop_re
+        # the local(s) through which a coroutine reaches its saved state: `_N = copy (_1.0: &mut {async ..})`
+        self.state_locals = set(re.findall(r"(_\d+) = copy \(_1\.0: &mut \{", "\n".join(fn.blocks.get("bb0", []))))
 
     def run_from(self, st0, bb):
         self._block(st0, bb, 0)
@@ -156,10 +164,10 @@ class Exec15(Executor):
 
     def parse_place(self, s):
         # coroutine state variants are printed as `variant#3`
-        return super().parse_place(canon_state(s).replace("variant#", "variantN"))
+        return super().parse_place(canon_state(s, self.state_locals).replace("variant#", "variantN"))
 
     def read_place(self, st, s):
-        s = canon_state(s)
+        s = canon_state(s, self.state_locals)
         base = re.match(r"[\(\*]*(_\d+)", s.strip())
         if base and base.group(1) not in st.env and re.fullmatch(r"_[89]\d{5,7}", base.group(1)):
             # a field of the coroutine's saved state that these paths never wrote: not interpreted
@@ -174,6 +182,8 @@ class Exec15(Executor):
 
     def rvalue(self, st, r, dest_ty):
         r = r.strip()
+        if r.startswith("no_retag "):
+            r = r[len("no_retag "):]
         m = re.fullmatch(r"discriminant\((.*)\)", r)
         if m:
             v = self.read_place(st, m.group(1))
@@ -209,8 +219,8 @@ class Exec15(Executor):
             return  # coroutine state bookkeeping
         if l.startswith("// DBG") or l.startswith("//"):
             return
-        line = canon_state(line)
-        l = canon_state(l)
+        line = canon_state(line, self.state_locals)
+        l = canon_state(l, self.state_locals)
         super().stmt(st, line)
         if self.stop_re and re.search(self.stop_re, l):
             dest = l.split(" = ")[0].strip()
@@ -218,7 +228,7 @@ class Exec15(Executor):
 
     def term(self, st, line, depth):
         # `{async fn body of X::new()}` inside a callee path would end the callee at its `(`
-        return super().term(st, canon_state(line).replace("()}", "}").replace("<(), ", "<Unit, ").replace("<()>", "<Unit>").replace(", ()>", ", Unit>"), depth)
+        return super().term(st, canon_state(line, self.state_locals).replace("()}", "}").replace("<(), ", "<Unit, ").replace("<()>", "<Unit>").replace(", ()>", ", Unit>"), depth)
 
     def _block(self, st, bb, depth):
         if depth > 300:
